@@ -84,6 +84,24 @@ CLAIMED = {
         text="Theorems C06_*: for every argument vector, executable, environment list, cwd over arbitrary byte strings (unbounded lengths and counts): what reaches execve is the vector byte for byte (argv[0] stays the program name under an executable override), the block is exactly one name=value entry per distinct name carrying its last value (getenv on it = last binding; nothing else), None means inherit, cwd as given; a NUL in any argument, the executable, any name, any surviving value or the cwd is refused with EINVAL and issues no exec, and a NUL-free request is never refused; in the launch model the refusal precedes the fork, and exactly the requested chdir/setgid/setuid/setpgid are applied, the group before the user; the Windows block builder is proved case-insensitive last-wins, double-NUL terminated.",
         note="Trusted: Coq kernel; extraction (ExtrOcamlBasic only) cross-checked by vm_compute on small cases; realdrive interposers and the stub's self-report; that the kernel passes execve's vectors to the image unchanged (cross-checked).  A NUL inside a value that a later duplicate name shadows is dropped with its entry by the code and is therefore not refused: the theorem says 'surviving value', the generators do not plant NUL in shadowed values.  setuid/setgid to other users needs the check to run as root (it does here); otherwise only the own ids are used.",
         design="5/C06"),
+    "C12": dict(
+        engine="E2-logged-real-spawns",
+        technique="Coq proof (a handle's drop is a list of closes and blocking waits; a child exits by an inductive predicate over what it is blocked on; chains of releases by induction over the pipeline length) + real handles of scripted children dropped under a watchdog, with the logged close/waitpid order (which pipe ends are still held at each blocking wait) compared with the extracted model",
+        text="Theorems C12_*: every non-detached handle (Popen, join, the stream adapters, pipeline vectors, the failed-start path) contains a wait for each command it started; a detached one contains none; for every pipeline length, dropping the stdout/stderr reader completes when the commands are exiting programs, endless writers or filters, and dropping the stdin writer completes when they are exiting programs, read-to-EOF programs or filters -- because the adapter's own pipe end is closed before the first wait (the pre-repair order is shown to deadlock in the same world).",
+        note="Trusted: as C06 for the harness; the child classes (KExit/KReadEOF/KWriter/KFilter: blocked only on this handle's own pipes) are a model of process behaviour exercised by scripted stubs, not a theorem about arbitrary programs.  capture()'s internal closes are the communicate loop's (C01/C02) and are not re-modelled here; its outcome (everything reaped) is monitored.",
+        design="5/C12"),
+    "C13": dict(
+        engine="E2-logged-real-spawns",
+        technique="Coq proof (structural induction over composition expressions; induction over the spawn loop for the wiring; induction over the stage list for the data flow) + real pipelines of tagging stages in every composition shape, the children's descriptor tables compared by inode with the extracted model's wiring, outputs / stderr lines / statuses monitored",
+        text="Theorems C13_*: however nested (a|b, p|e, p|q at every split, from_exec_iter), the stage list is the commands in reading order (>= 2); for every number n of plain stages Pipeline::popen gives stage 0 the pipeline's stdin, stage n-1 the pipeline's stdout, connects stage i's stdout to a fresh pipe whose read end is stage i+1's stdin, and leaves argv and stderr of every command its own; evaluating the stages as functions along that wiring yields their composition in order applied to the pipeline's input.",
+        note="Trusted: as C06.  Stderr 'no line lost', the returned status being the last stage's and 'only after all commands have exited' are monitored on the real runs (kernel O_APPEND/PIPE_BUF atomicity and Popen::drop's wait are involved), not separate theorems; the wait-for-all part is C12_nondetached_waits_for_all (HJoinPipe).  Pipeline|Pipeline keeps only the right operand's stdout setting (modelled).",
+        design="5/C13"),
+    "C14": dict(
+        engine="E2-logged-real-spawns",
+        technique="Coq proof (induction over the spawn loop: exactly k launches before the error; the error path as a DropOrder handle whose waits complete by the upstream / downstream release chains, for every k) + real pipelines whose k-th command does not exist, every k, terminator, stdin kind, detached or not, under a watchdog, with fork count, descriptor table, zombies and the logged close/waitpid order compared with the model",
+        text="Theorems C14_*: when the k-th command cannot be started the loop ends with that error after exactly k launches (none later); the error path closes every pipe end held for the started commands before waiting, so for every k the waits complete for commands that end at end-of-file (piped stdin) or when their reader is gone; unless detached each started command is waited for, detached ones never.",
+        note="Trusted: as C12.  Holds only since the repairs of F7 (hang with a piped stdin) and F15 (communicate() left zombies); both are fixed entries in known_findings.txt.  A first command reading an inherited terminal is outside the model (not one of the attempt's own pipes).",
+        design="5/C14"),
     "C15": dict(
         engine="E2-logged-real-spawns",
         technique="Coq proof (induction over the PATH string for the tokenizer, over the candidate list for the exec loop, file system as a universally quantified oracle) + real launches in generated directory layouts (executable / non-executable / directory / garbage / missing / over-long candidates) with the logged execve path sequence and outcome judged by the extracted model + hook differential of split_path",
